@@ -54,14 +54,14 @@ Qed.
 Lemma good_frame_eq ns s s' : Inv ns s -> frame eq s s' -> good ns s s'.
 Proof. intros I F. apply good_frame; [exact I |]. eapply frame_weaken; [| exact F]. intros a b ->. apply msg_ok_refl. Qed.
 
-Lemma added_evolve s s' h r0 : added s s' h r0 -> evolve msg_ok s s'.
+Lemma added_evolve (P : rstate -> rstate -> Prop) s s' h r0 : (forall a, P a a) -> added s s' h r0 -> evolve P s s'.
 Proof.
-  intros (M & A & X & R & [t [E [Al E']]] & O). split; [exact M |]. intros x tx Ex.
+  intros RP (M & A & X & R & [t [E [Al E']]] & O). split; [exact M |]. intros x tx Ex.
   destruct (N.eq_dec x h) as [->|Nx].
   - rewrite E in Ex. inversion Ex; subst tx. eexists. split; [exact E' |]. simpl. repeat split; auto.
-    intros r Hr. exists r. split; [apply in_ins_rec; now right | split; [apply rec_static_refl | apply msg_ok_refl]].
+    intros r Hr. exists r. split; [apply in_ins_rec; now right | split; [apply rec_static_refl | apply RP]].
   - exists tx. rewrite (O x Nx). repeat split; auto.
-    intros r Hr. exists r. split; [exact Hr | split; [apply rec_static_refl | apply msg_ok_refl]].
+    intros r Hr. exists r. split; [exact Hr | split; [apply rec_static_refl | apply RP]].
 Qed.
 
 Lemma add_relay_good ns s h key rem ty st am org cs s' res cs' :
@@ -74,7 +74,7 @@ Lemma add_relay_good ns s h key rem ty st am org cs s' res cs' :
 Proof.
   intros I H1 H2 Hab A. destruct (add_relay_spec ns _ _ _ _ _ _ _ _ _ _ _ _ I H1 H2 Hab A) as [J R].
   destruct res as [i|].
-  - destruct R as [_ Ad]. split; [exact J |]. split; [eapply added_evolve; eauto |]. now destruct Ad as (_ & A' & _).
+  - destruct R as [_ Ad]. split; [exact J |]. split; [eapply added_evolve; [apply msg_ok_refl | eauto] |]. now destruct Ad as (_ & A' & _).
   - subst s'. now apply good_refl.
 Qed.
 
@@ -311,3 +311,128 @@ Proof.
     intros t0 E0. rewrite E in E0. now inversion E0; subst.
 Qed.
 
+
+(* ---- one step, any operation ----------------------------------------------------------------------------------------- *)
+
+(* what each kind of operation may do to the state of a record that exists before it *)
+Definition op_ok (o : op) (a b : rstate) : Prop :=
+  match o with
+  | OMsg _ _ _ => msg_ok a b                                (* a control message: into Requested / Established *)
+  | OStart _ _ _ => a = b \/ (a = SDis /\ b = SReq)          (* StartRelays re-requests a disestablished relay *)
+  | ODel _ | OAdd _ _ _ _ _ => to_dis a b                   (* a tunnel went away (deleted / retired by the per-address cap) *)
+  | OSetAm _ | OVia _ _ => a = b
+  end.
+
+Lemma NoDup_map_inj {A B} (f : A -> B) l a b : NoDup (map f l) -> In a l -> In b l -> f a = f b -> a = b.
+Proof.
+  induction l as [|x l IH]; simpl; intros ND Ha Hb E; [tauto |].
+  inversion ND as [|? ? Hx ND']; subst.
+  destruct Ha as [->|Ha], Hb as [->|Hb]; auto.
+  - exfalso. apply Hx. rewrite E. now apply in_map.
+  - exfalso. apply Hx. rewrite <- E. now apply in_map.
+Qed.
+
+Lemma start_relays_evolve ns s relay vpn cs :
+  Inv ns s -> evolve (fun a b => a = b \/ (a = SDis /\ b = SReq)) s (fst (fst (start_relays s relay vpn cs))).
+Proof.
+  set (P := fun a b : rstate => a = b \/ (a = SDis /\ b = SReq)).
+  assert (R : forall a, P a a) by (intros; now left).
+  intros I. unfold start_relays. destruct (s_am s); [simpl; now apply evolve_refl |].
+  destruct ((relay =? vpn) || is_me s relay); [simpl; now apply evolve_refl |].
+  destruct (primary s relay) as [rh|]; [| simpl; now apply evolve_refl].
+  destruct (tun s rh) as [t|] eqn:E; [| simpl; now apply evolve_refl].
+  destruct (negb (t_valid t)); [simpl; now apply evolve_refl |].
+  destruct (rec_by_addr (t_recs t) vpn) as [r|] eqn:Rb.
+  - destruct (r_st r) eqn:St; simpl; try (now apply evolve_refl).
+    apply rec_by_addr_some in Rb as [Inr Pr].
+    apply frame_evolve. unfold set_state_by_addr, map_recs. rewrite E.
+    eapply frame_with_tun; [exact R | exact E |]. repeat split. simpl.
+    (* one record per peer address: the record keyed vpn is the Disestablished one *)
+    assert (U : forall r', In r' (t_recs t) -> r_peer r' = vpn -> r' = r).
+    { intros r' Hr' Pr'. eapply NoDup_map_inj; [apply (inv_uniq _ _ I rh t E) | exact Hr' | exact Inr | congruence]. }
+    clear Inr. induction (t_recs t) as [|y l IH]; simpl; constructor.
+    + destruct (r_peer y =? vpn) eqn:K.
+      * apply N.eqb_eq in K. rewrite (U y (or_introl eq_refl) K). split; [repeat split |]. simpl. right. auto.
+      * split; [apply rec_static_refl | apply R].
+    + apply IH. intros r' Hr'. apply U. now right.
+  - destruct (add_relay rh vpn 0 TTerm SReq false GStart cs s) as [[s1 [i|]] cs1] eqn:A; simpl; [| now apply evolve_refl].
+    assert (Hab : forall t0, tun s rh = Some t0 -> rec_by_addr (t_recs t0) vpn = None).
+    { intros t0 E0. rewrite E in E0. now inversion E0; subst. }
+    destruct (add_relay_spec ns s rh vpn 0 TTerm SReq false GStart cs s1 (Some i) cs1 I
+                (fun H => ltac:(discriminate)) (fun _ H => ltac:(discriminate)) Hab A) as [_ [_ Ad]].
+    eapply added_evolve; [exact R | exact Ad].
+Qed.
+
+Lemma step_spec ns s o :
+  Inv ns s -> (ns = true -> wf_op s o = true) ->
+  Inv ns (step_state s o) /\ evolve (op_ok o) s (step_state s o).
+Proof.
+  intros I W. unfold step_state. destruct o as [id addrs local valid v1 | id | b | h w cs | relay vpn cs | h ip]; simpl.
+  - destruct (add_tunnel_spec ns s id addrs local valid v1 I) as (J & Ev & _). auto.
+  - destruct (delete_tunnel_spec ns s id I) as (J & Ev & _). auto.
+  - split; [now apply Inv_with_am | apply evolve_same_tun; auto; intros a; reflexivity].
+  - destruct (control_step_good ns s h w cs I W) as (J & Ev & _). auto.
+  - split; [exact (proj1 (start_relays_good ns s relay vpn cs I)) | now apply (start_relays_evolve ns)].
+  - pose proof (insert_via_frame s h ip) as F. split; [eapply Inv_frame; eauto | now apply frame_evolve].
+Qed.
+
+(* ---- reachable states ---------------------------------------------------------------------------------------------------- *)
+
+Inductive reach (me : list N) (am : bool) : state -> Prop :=
+| reach_init : reach me am (init me am)
+| reach_step s o : reach me am s -> reach me am (step_state s o).
+
+(* histories in which no tunnel asks for a relay to one of its own addresses *)
+Inductive reach_wf (me : list N) (am : bool) : state -> Prop :=
+| reach_wf_init : reach_wf me am (init me am)
+| reach_wf_step s o : reach_wf me am s -> wf_op s o = true -> reach_wf me am (step_state s o).
+
+Lemma reach_run_from me am s ops : reach me am s -> reach me am (run s ops).
+Proof.
+  revert s. induction ops as [|o ops IH]; intros s H; simpl; [exact H |].
+  apply IH. now constructor.
+Qed.
+
+Lemma reach_run me am ops : reach me am (run (init me am) ops).
+Proof. apply reach_run_from. constructor. Qed.
+
+Lemma reach_is_run me am s : reach me am s -> exists ops, s = run (init me am) ops.
+Proof.
+  induction 1 as [|s o H [ops IH]].
+  - exists []. reflexivity.
+  - exists (ops ++ [o]). unfold run. rewrite fold_left_app. simpl. now rewrite IH.
+Qed.
+
+Lemma reach_inv me am s : reach me am s -> Inv false s.
+Proof.
+  induction 1 as [|s o H IH]; [apply Inv_init |].
+  apply (step_spec false s o IH). discriminate.
+Qed.
+
+Lemma reach_wf_inv me am s : reach_wf me am s -> Inv true s.
+Proof.
+  induction 1 as [|s o H IH Wf]; [apply Inv_init |].
+  apply (step_spec true s o IH). auto.
+Qed.
+
+Lemma reach_wf_reach me am s : reach_wf me am s -> reach me am s.
+Proof. induction 1; now constructor. Qed.
+
+Lemma reach_me me am s : reach me am s -> s_me s = me.
+Proof.
+  induction 1 as [|s o H IH]; [reflexivity |].
+  destruct (step_spec false s o (reach_inv _ _ _ H) ltac:(discriminate)) as [_ [M _]]. congruence.
+Qed.
+
+(* executable form of "the whole history is well formed" *)
+Fixpoint wf_run (s : state) (ops : list op) : bool :=
+  match ops with
+  | [] => true
+  | o :: r => wf_op s o && wf_run (step_state s o) r
+  end.
+
+Lemma reach_wf_run me am ops : forall s, reach_wf me am s -> wf_run s ops = true -> reach_wf me am (run s ops).
+Proof.
+  induction ops as [|o ops IH]; intros s R W; simpl in *; [exact R |].
+  apply andb_prop in W as [W1 W2]. apply IH; [now constructor | exact W2].
+Qed.
